@@ -342,6 +342,7 @@ class Program:
         for u, p in sorted(paths.items()):
             d = frontend.load_json(p)
             self.units[u] = d
+            self._inline_new_helpers(d, u)
             for fd in d["functions"]:
                 _name_indirect_calls(fd.get("body"))
                 _normalise_params(fd, relpath(fd.get("file") or u))
@@ -373,6 +374,23 @@ class Program:
         PROGRAM_STATS.append({"configuration": tag or config, "units": len(self.units),
                               "functions_with_bodies": sum(1 for _ in self.all_funcs()),
                               "flags": " ".join(frontend.BASE_FLAGS[:1] + frontend.CONFIGS[config] + list(extra_flags or []))})
+
+    def _inline_new_helpers(self, d, u):
+        """static functions that the reference tree does not have (tables/signatures.json) are expanded at their call
+        sites, so that a block moved into a new helper is still seen by the rules of the function it came from"""
+        global SIGNATURES
+        if SIGNATURES is None:
+            SIGNATURES = _load_signatures()
+        if not SIGNATURES:
+            return
+        from . import inline
+
+        def known(fd):
+            rel = relpath(fd.get("file") or u)
+            return ("%s:%s" % (rel, fd["n"])) in SIGNATURES or fd["n"] in SIGNATURES
+        n = inline.inline_unit([fd for fd in d["functions"] if (fd.get("file") or u) == u], known)
+        if n:
+            self.inlined = getattr(self, "inlined", 0) + n
 
     def all_funcs(self, with_headers=False):
         """every function definition located in a .c unit (once)"""
